@@ -24,7 +24,7 @@ def gen(rng, tier):
     n = 1200 if tier == 'quick' else 25000
     for k in range(n):
         r = rng.random()
-        mode = 'small' if r < 0.5 else ('u8' if r < 0.8 else 'medium')
+        mode = 'small' if r < 0.5 else ('u8' if r < 0.78 else ('dense' if r < 0.84 else 'medium'))
         ivs = G.rand_ivs(rng, mode, rng.choice([0, 1, 1, 2, 3, 4, 6, 9]), 'ne')
         if mode == 'u8' and rng.random() < 0.3:
             ivs.append((rng.randint(200, 254), 255))
